@@ -169,7 +169,7 @@ def brief(ev):
 def record(run, quick):
     """drive live objects through seeded random histories; returns (traces, modes)"""
     rng = random.Random(run.seed * 104729 + 11)
-    n_hist, length = (60, 30) if quick else (800, 40)
+    n_hist, length = (60, 30) if quick else (600, 40)
     traces, modes = [], []
     for i in range(n_hist):
         mode = MODES[i % len(MODES)]
